@@ -77,3 +77,11 @@ Theorem C13_code_unlock : forall level params d1 d2 r1 r2,
   fn_unlock level params d1 d2 = ret (unlock_spec level params r1 r2).
 Proof. exact tie_unlock. Qed.
 Print Assumptions C13_code_unlock.
+(* ... the same with the three exception_on_* switches off (the flagged response handed back instead of raised is observed as the code
+   the exception would have given): nothing more is sent after a failed seed exchange, whatever the switches *)
+From UDS Require Import Proofs.Tie_unlock_lenient.
+Theorem C13_code_unlock_switches_off : forall level params d1 d2 r1 r2,
+  d1 <> [] -> (List.length d1 < 4)%nat -> d2 <> [] -> p_data r1 = d1 -> p_data r2 = d2 ->
+  fn_unlock_lenient level params d1 d2 = ret (unlock_spec level params r1 r2).
+Proof. exact tie_unlock_lenient. Qed.
+Print Assumptions C13_code_unlock_switches_off.
